@@ -53,6 +53,12 @@ class Facts:
                     self.meta = r
         self._callers = None
         self._aggsites = None
+        # normalised (generic-free) aliases: `Ctx::<T>::m` is addressable as `Ctx::m`
+        self._alias = {}
+        for k in self._raw:
+            n = norm(k)
+            if n != k and n not in self._raw:
+                self._alias.setdefault(n, k)
 
     def _key(self, d, idx):
         ks = self.keys_by_def.setdefault(d, [])
@@ -68,11 +74,12 @@ class Facts:
         return list(self._raw.keys())
 
     def has(self, key):
-        return key in self._raw
+        return key in self._raw or key in self._alias
 
     def fn(self, key):
         """Parsed function record (Fn wrapper) by key; None if absent."""
         from cfg import Fn
+        key = self._alias.get(key, key)
         if key in self._fn:
             return self._fn[key]
         raw = self._raw.get(key)
@@ -85,7 +92,7 @@ class Facts:
     def find(self, pattern):
         """Keys whose def path matches the regex (search)."""
         rx = re.compile(pattern)
-        return [k for k in self._raw if rx.search(k)]
+        return [k for k in self._raw if rx.search(k) or rx.search(norm(k))]
 
     def callers(self):
         """callee (normalised def or res) -> set of caller keys"""
